@@ -188,17 +188,20 @@ def is_sequence_type(value: str, parser: ta.XPathParserType | None = None) -> bo
             else:
                 return is_st(st[6:-1])
 
-        elif st.startswith('element(') and st.endswith(')'):
-            if ',' not in st:
-                return Patterns.extended_qname.match(st[8:-1]) is not None
+        elif st.startswith(('element(', 'attribute(')) and st.endswith(')'):
+            args = st[st.index('(') + 1:-1]
+            if ',' not in args:
+                return Patterns.extended_qname.match(args) is not None
 
             try:
-                arg1, arg2 = st[8:-1].split(', ')
+                arg1, arg2 = args.split(', ')
             except ValueError:
                 return False
             else:
+                if arg2.endswith('?') and st.startswith('element('):
+                    arg2 = arg2[:-1]  # element(name, type?) matches also nilled elements
                 return (arg1 == '*' or Patterns.extended_qname.match(arg1) is not None) \
-                       and Patterns.extended_qname.match(arg2) is not None
+                    and Patterns.extended_qname.match(arg2) is not None
 
         elif st.startswith('document-node(') and st.endswith(')'):
             if not st.startswith('document-node(element('):
